@@ -16,7 +16,8 @@ def deps_generated(mod, seen=None):
         if m.startswith("XgiModel.Generated") or deps_generated(m, seen): return True
     return False
 for p in ready:
-    cands = [f"XgiModel.Props.{p}"] + sorted("XgiModel." + os.path.relpath(f, os.path.join(L, "XgiModel"))[:-5].replace("/", ".")
+    cands = [f"XgiModel.Props.{p}"] + sorted("XgiModel.Props." + os.path.basename(f)[:-5]
+                                             for f in glob.glob(os.path.join(L, "XgiModel", "Props", p + "?*.lean"))) + sorted("XgiModel." + os.path.relpath(f, os.path.join(L, "XgiModel"))[:-5].replace("/", ".")
                                               for f in glob.glob(os.path.join(L, "XgiModel", p, "*.lean")))
     for m in cands:
         if os.path.exists(os.path.join(L, *m.split(".")) + ".lean") and not deps_generated(m) and m not in mods:
